@@ -63,6 +63,10 @@ func (in *vfC05Inst) trackInterest(ev string) {
 		in.interest[f[1]][f[2]] = true
 	case "unsub":
 		delete(in.interest[f[1]], f[2])
+	case "sub2":
+		for _, t := range strings.Split(f[2], "+") {
+			in.interest[f[1]][t] = true
+		}
 	case "disc", "inclose", "inreset", "inopen":
 		in.interest[f[1]] = map[string]bool{}
 	case "failstream":
@@ -296,6 +300,12 @@ func vfC05Scenarios(thorough bool) []*vfGWScenario {
 	// ignored, its subscription state is still tracked
 	mk("gossip-graylisted", "gossip", 0, nil, []string{"conn:a", "conn:b", "join:t"}, []string{"score:a:-5", "score:a:0", "sub:a:t", "unsub:a:t", "sub:a:u", "sub:b:t", "disc:a", "conn:a", "hb"})
 	out[len(out)-1].Cfg.Scoring = true
+	// a subscription filter that allows the scenario's topics and up to two subscription entries per RPC: an RPC with
+	// exactly two is within the limit
+	for _, router := range []string{"flood", "gossip"} {
+		mk(router+"-subfilter", router, 0, map[string]string{"subfilter": "limit2"}, []string{"conn:a", "conn:b"},
+			[]string{"sub2:a:t+u", "sub:a:t", "unsub:a:t", "sub:b:u", "join:t", "join:u", "leave:t", "disc:a", "conn:a"})
+	}
 	mk("gossip-fanoutonly", "gossip", 0, map[string]string{"fanout_only": "t"}, []string{"conn:a"}, []string{"join:t", "leave:t", "relay:t", "join:u", "leave:u", "conn:b", "disc:a", "lpub:t:p1", "hb"})
 	return out
 }
